@@ -149,6 +149,12 @@ pub struct PkgSpec {
     pub exports: Vec<(String, Ty)>,
     /// component bytes when the package was not generated from the description
     pub bytes: Option<Vec<u8>>,
+    /// for packages described through the reference validator: members of every instance
+    /// import (name -> canonical type) and the imports each import's types depend on
+    pub import_members: std::collections::BTreeMap<String, std::collections::BTreeMap<String, String>>,
+    pub import_deps: std::collections::BTreeMap<String, std::collections::BTreeSet<String>>,
+    /// import -> member -> (import, member) of the type it refers to
+    pub import_uses: std::collections::BTreeMap<String, std::collections::BTreeMap<String, (String, String)>>,
 }
 
 impl PkgSpec {
@@ -233,7 +239,9 @@ impl PkgSpec {
         imports.sort_by_key(|(n, _)| top_i.iter().position(|m| m == n));
         exports.sort_by_key(|(n, _)| top_e.iter().position(|m| m == n));
         imports.dedup_by(|a, b| a.0 == b.0);
-        PkgSpec { name: name.to_string(), version: version.map(|s| s.to_string()), imports, exports, bytes: Some(bytes) }
+        let names: Vec<String> = imports.iter().map(|(n, _)| n.clone()).collect();
+        let (import_members, import_deps, import_uses) = mc_core::e2::import_structure(&bytes, &names).expect("validated above");
+        PkgSpec { name: name.to_string(), version: version.map(|s| s.to_string()), imports, exports, bytes: Some(bytes), import_members, import_deps, import_uses }
     }
 
     pub fn new(name: &str, version: Option<&str>, imports: &[(&str, Ty)], exports: &[(&str, Ty)]) -> PkgSpec {
@@ -243,6 +251,9 @@ impl PkgSpec {
             imports: imports.iter().map(|(n, t)| (n.to_string(), t.clone())).collect(),
             exports: exports.iter().map(|(n, t)| (n.to_string(), t.clone())).collect(),
             bytes: None,
+            import_members: Default::default(),
+            import_deps: Default::default(),
+            import_uses: Default::default(),
         }
     }
 
